@@ -11606,7 +11606,8 @@ tsk_table_collection_read_format_data(tsk_table_collection_t *self, kastore_t *s
         ret = tsk_trace_error(TSK_ERR_FILE_FORMAT);
         goto out;
     }
-    if (L[0] <= 0.0) {
+    /* Written so that a NaN sequence length is rejected too */
+    if (!(L[0] > 0.0)) {
         ret = tsk_trace_error(TSK_ERR_BAD_SEQUENCE_LENGTH);
         goto out;
     }
